@@ -292,7 +292,96 @@ def m_shard_pick(eng, ctx, f, path, args, dty):
     return Ptr(("obj", o if len(ids) > 1 else ids[0]))
 
 
+# ---- whole-map operations on a shard (visit_* / get_*_handles / retain_* / clear): the table is walked key by key; which keys are
+# present is the shard's state (one branch per key)
+def _shard_items(eng, c, shard):
+    """generator (inside a model script): [(key id, value pointer)] of the entries present in the shard"""
+    out = []
+    for k in eng.reg_keys:
+        v = yield ("effect", lambda c_, k=k: entry_read(eng, c_, shard, k, "map_iter"))
+        here = yield ("branch", v != 0)
+        if here:
+            out.append((k, v))
+    return out
+
+
+def m_shard_iter(eng, ctx, f, path, args, dty):
+    mp = args[0]
+    if isinstance(mp, Ptr):
+        mp = eng.load_ptr(ctx, mp)
+    if not (isinstance(mp, Native) and mp.kind == "shardmap"):
+        raise Unsupported(f"iteration over {mp}")
+    shard = mp.data[0]
+
+    def script(c):
+        items = yield from _shard_items(eng, c, shard)
+        cells = yield ("effect", lambda c_: [(_cell(c_, Native("key", k)), _cell(c_, Ptr(("obj", v)))) for k, v in items])
+        return Native("liter", (tuple(Agg({0: Ptr(("static", a)), 1: Ptr(("static", b))}) for a, b in cells), 0))
+    return Script(script)
+
+
+_ncell = [0]
+
+
+def _cell(c, v):
+    _ncell[0] += 1
+    name = f"regiter#{_ncell[0]}"
+    c.statics[name] = v
+    return name
+
+
+def m_shard_retain(eng, ctx, f, path, args, dty):
+    mp = args[0]
+    if isinstance(mp, Ptr):
+        mp = eng.load_ptr(ctx, mp)
+    if not (isinstance(mp, Native) and mp.kind == "shardmap"):
+        raise Unsupported(f"retain on {mp}")
+    shard, gkind = mp.data
+    clo = args[1]
+
+    def script(c):
+        items = yield from _shard_items(eng, c, shard)
+        for k, v in items:
+            cells = yield ("effect", lambda c_, k=k, v=v: (_cell(c_, Native("key", k)), _cell(c_, Ptr(("obj", v)))))
+            r = yield ("callv", clo, [Ptr(("static", cells[0])), Ptr(("static", cells[1]))])
+            keep = yield ("branch", eng.as_bool(r))
+            if not keep:
+                def rm(c_, k=k):
+                    if gkind != "wguard":
+                        c_.observe("remove_without_write_lock", shard=shard)
+                    c_.mem_write(shard, (("e", k),), "ptr", z3.IntVal(0), False, "NA", "map_remove")
+                yield ("effect", rm)
+        return UNIT
+    return Script(script)
+
+
+def m_shard_clear(eng, ctx, f, path, args, dty):
+    mp = args[0]
+    if isinstance(mp, Ptr):
+        mp = eng.load_ptr(ctx, mp)
+    if not (isinstance(mp, Native) and mp.kind == "shardmap"):
+        raise Unsupported(f"clear on {mp}")
+    shard, gkind = mp.data
+    if gkind != "wguard":
+        ctx.observe("remove_without_write_lock", shard=shard)
+    for k in eng.reg_keys:
+        ctx.mem_write(shard, (("e", k),), "ptr", z3.IntVal(0), False, "NA", "map_remove")
+    return UNIT
+
+
+def m_shards_iter(eng, ctx, f, path, args, dty):
+    sh = args[0]
+    if isinstance(sh, Ptr):
+        sh = eng.load_ptr(ctx, sh)
+    if not (isinstance(sh, Native) and sh.kind == "shards"):
+        raise Unsupported(f"iteration over {sh}")
+    return Native("liter", (tuple(Ptr(("obj", i)) for i in sh.data), 0))
+
+
 REG_MODELS = {
+    r"hashbrown::(map::)?HashMap::iter$|^<&hashbrown::(map::)?HashMap as IntoIterator>::into_iter$": m_shard_iter,
+    r"hashbrown::(map::)?HashMap::retain$": m_shard_retain,
+    r"hashbrown::(map::)?HashMap::clear$": m_shard_clear,
     r"RwLock::read$": m_lock_read,
     r"RwLock::write$": m_lock_write,
     r"^Result::unwrap_or_else$": m_payload,
